@@ -159,7 +159,7 @@ class C05(Engine):
 
 	def canonical_cases(self) -> list[dict[str, Any]]:
 		cases: list[dict[str, Any]] = []
-		for which in (0, 1, 3):
+		for which in ((0, 1) if getattr(self, 'tier', 'quick') == 'quick' else (0, 1, 3)):
 			pool = pools.fixed_pool(which)
 			mods = pools.core(pool)
 			top, leaf = mods[0], mods[-1]
